@@ -152,10 +152,7 @@ class DynBaseRefDict(RefDict):
                         impl[rootlen+1:]) # +1 to remove preceding dot
                 else:
                     if value.refmode == "auto":
-                        if value.is_defined():
-                            return value
-                        else:
-                            return value.direct_bases[0]
+                        return value
 
                     elif value.refmode == "relative":
                         raise ValueError(
@@ -1954,10 +1951,11 @@ class UserSpaceImpl(*_user_space_impl_base):
                       is_relative):
         ref = self.own_refs[name]
         self.on_del_ref(name)
-        self.on_create_ref(name, value, is_derived, refmode)
+        new = self.on_create_ref(name, value, is_derived, refmode)
+        new.is_relative = is_relative
         self.model.clear_attr_referrers(ref)
         self.change_dynsub_refs(name)
-        return ref
+        return new
 
     def on_create_ref(self, name, value, is_derived, refmode):
         ref = ReferenceImpl(self, name, value,
